@@ -52,9 +52,14 @@ def _resolvable_names(col, rule="C11.R2"):
         if dunder not in base.methods:
             continue
         fn = base.methods[dunder]
-        for c in A.calls(fn):
-            if A.call_name(c) == "BuiltinRef" and len(c.args) >= 2:
-                op = A.dotted(c.args[1]) or A.src(c.args[1])
+        dsx = sctx(repo, "BaseRef", dunder)
+        ops = []
+        for r in dsx.of_kind("return"):
+            for a in S.instances(r.value, 8):
+                if S.is_call_of(a, ("glob", "BuiltinRef")) and len(a[2]) >= 2:
+                    ops.append(S.show(a[2][1], False))
+        for op in dict.fromkeys(ops):
+            if True:
                 if op in sym_keys:
                     continue
                 mod, _, name = op.rpartition(".")
@@ -63,9 +68,13 @@ def _resolvable_names(col, rule="C11.R2"):
                         f"the name printed for {op} (`{name}(...)`) resolves in the namespace load()/eval uses (builtins + container labels)",
                         f"{op} prints as bare `{name}`" + ("" if resolvable else f", which lives in module `{mod}`, not in builtins"))
     # CallRef prints function refs through repr (a ref path) or __name__
-    cx = fnctx(repo, "CallRef", "__repr__")
-    col.add(rule, "CallRef.__repr__#function-as-ref-path", any(isinstance(n, ast.Call) and A.call_name(n) == "repr" and A.self_attr(n.args[0]) == "_func"
-                                                               for n in A.walk(cx.fn)), cx.loc(cx.fn),
+    sx = sctx(repo, "CallRef", "__repr__")
+    ok = False
+    for r in sx.of_kind("return"):
+        for t in S.subterms(S.norm_str(r.value)):
+            if t == S.fcall("repr", S.sattr("_func")) or t == ("fmt", "!r", S.sattr("_func")):
+                ok = True
+    col.add(rule, "CallRef.__repr__#function-as-ref-path", ok, sx.loc(sx.fn),
             "a called function held in a container prints as its reference path", "")
 
 
@@ -92,19 +101,31 @@ def _precedence(col, rule="C11.R3"):
                     "and reloads as -(3 ** a)")
 
 
+def _joined_contribs(sx):
+    """contributions of the list(s) that the returned text joins"""
+    out = []
+    for r in sx.of_kind("return"):
+        for t in S.subterms(S.norm_str(r.value)):
+            if S.is_call_of(t, meth="join") and t[2]:
+                for a in S.alts(t[2][0]):
+                    if a[:1] == ("acc",):
+                        out.extend(a[2])
+                    elif a[:1] == ("list",):
+                        out.extend(("one", (), x) for x in a[1])
+    return out
+
+
+def _rendered_with_repr(t, of) -> bool:
+    return t == S.fcall("repr", of) or t == ("fstr", (("fmt", "!r", of),)) or t == ("fmt", "!r", of)
+
+
 def _literal_rendering(col, rule="C11.R6"):
     repo = col.repo
     cx = fnctx(repo, "CallRef", "__repr__")
+    sx = sctx(repo, "CallRef", "__repr__")
     # positional arguments through repr()
-    ok = False
-    for n in A.walk(cx.fn):
-        if isinstance(n, (ast.ListComp, ast.GeneratorExp)) and len(n.generators) == 1 and A.self_attr(n.generators[0].iter) == "_args":
-            e = n.elt
-            tv = A.target_names(n.generators[0].target)
-            if isinstance(e, ast.Call) and A.call_name(e) == "repr" and [A.dotted(e.args[0])] == tv:
-                ok = True
-            if isinstance(e, ast.JoinedStr) and len(e.values) == 1 and isinstance(e.values[0], ast.FormattedValue) and e.values[0].conversion == ord("r"):
-                ok = True
+    el = ("elem", S.sattr("_args"))
+    ok = any(c[0] == "one" and not c[1] and _rendered_with_repr(c[2], el) for c in _joined_contribs(sx))
     col.add(rule, "CallRef.__repr__#positional-with-repr", ok, cx.loc(cx.fn),
             "positional call arguments are rendered with repr (string literals keep their quotes; refs print their path)", "")
     kw_repr = False
@@ -118,17 +139,11 @@ def _literal_rendering(col, rule="C11.R6"):
             "keyword argument values are rendered with repr", "rendered with str: a string keyword value loses its quotes "
             "(outside the property's quantifier, which has numeric keyword arguments only)", note=True)
     cx = fnctx(repo, "BuiltinRef", "__repr__")
-    ok = False
-    for n in A.walk(cx.fn):
-        if isinstance(n, (ast.ListComp, ast.GeneratorExp)) and len(n.generators) == 1 and A.self_attr(n.generators[0].iter) == "_params":
-            e = n.elt
-            if isinstance(e, ast.Call) and A.call_name(e) == "repr":
-                ok = True
-            # a filter may only drop None (the 'not given' marker of round)
-            for cond in n.generators[0].ifs:
-                p = A.compare_parts(cond)
-                if not (p and isinstance(p[1], ast.IsNot) and A.is_none(p[2])):
-                    ok = False
+    bsx = sctx(repo, "BuiltinRef", "__repr__")
+    el = ("elem", S.sattr("_params"))
+    ps = [c for c in _joined_contribs(bsx) if c[0] == "one" and _rendered_with_repr(c[2], el)]
+    # a filter may only drop None (the 'not given' marker of round)
+    ok = len(ps) == 1 and all(S.norm_cond(pol, g) == ("cmp", "is not", el, ("const", "None")) for pol, g in ps[0][1])
     col.add(rule, "BuiltinRef.__repr__#params-with-repr", ok, cx.loc(cx.fn),
             "the extra parameters of a builtin are all printed (repr), only a None 'not given' marker is omitted", "")
     cx = fnctx(repo, "BuiltinRef", "__repr__")
